@@ -177,6 +177,8 @@ func buildVariant(variant, dst string) error {
 		args = append(args, "-buildmode=pie")
 	case "strip":
 		args = append(args, "-ldflags=-s")
+	case "extlink": // the system linker lays text and data out differently: function and data slides differ
+		args = append(args, "-ldflags=-linkmode=external")
 	}
 	args = append(args, altModfile()...)
 	args = append(args, "./cmd/simnode")
